@@ -6,6 +6,11 @@ Theorems about the model of `FlytModel/Model/Value.lean` (the *repaired* slice t
 `reflect.Kind`), for **all** values of the universe `GoVal`, all defaults, all stores and every
 instance of the float-conversion parameter `Conv`. Each is followed by a non-vacuity `example`.
 
+Section 5 is about a `flyt.Result` used as an ordinary value (`R(R(42))`, a Result in the store or
+inside a slice): it is a struct-kind member of the same universe — well-formed exactly when what it
+holds is — so everything above applies to it; what that means concretely (no accessor converts it,
+`ToSlice` wraps it, it compares like what it holds) is spelled out there.
+
 The last section is about the unrepaired test (`Legacy`, `result[0] == value`): it is proved, again
 for all values, to panic on every non-slice of non-comparable type and to call a NaN a slice —
 finding F4 — and to coincide with the repaired code everywhere else.
@@ -37,7 +42,7 @@ example : getSliceOr (Store.set [] "k" (.map tMapSA (some 1))) "k" none = .ok no
 theorem nonMust_total (sc : Scenario) :
     total (observe sc).str = true ∧ total (observe sc).int = true ∧ total (observe sc).flt = true
     ∧ total (observe sc).bool = true ∧ total (observe sc).slice = true ∧ total (observe sc).map = true
-    ∧ (observe sc).toSlice.isPanic = false := by
+    ∧ (observe sc).toSlice.isPanic = false ∧ (∀ g ∈ (observe sc).gen, g.1.isPanic = false) := by
   have hk := get_scStore sc.v
   have hm := get_scStore_miss sc.v
   have h1 := asSlice_closed sc.v
@@ -47,7 +52,8 @@ theorem nonMust_total (sc : Scenario) :
   have h5 := getSliceOrWith_miss kindTest _ _ none hm
   have h6 := getSliceOrWith_miss kindTest _ _ sc.d.sl hm
   unfold asSlice at h1; unfold asSliceOr at h2; unfold getSlice getSliceWith at h3; unfold getSliceOr at h4
-  simp [observe, observeWith, total, Ret.isPanic, h1, h2, h3, h4, h5, h6, getSliceWith]
+  refine ⟨?_, ?_, ?_, ?_, ?_, ?_, ?_, ?_⟩ <;>
+    simp [observe, observeWith, total, Ret.isPanic, h1, h2, h3, h4, h5, h6, getSliceWith]
 
 /-- a func value, a struct holding a slice: the slice family answers without panicking -/
 example : (observe ⟨.func (.func 0) false, ⟨"d", 7, 0, true, none, none⟩, ⟨fun _ _ => none, id, fun _ => 0⟩⟩).slice.as_ = .ok (none, false)
@@ -292,6 +298,32 @@ example : asString (.str (.named "MyString" tString) "x") = ("", false)
     ∧ asMap (.map (.map tString (.basic .int)) (some 1)) = (none, false)
     ∧ asMap (.map tMapSA none) = (none, true) := by decide
 
+/-- `As[T]` succeeds exactly when the value is not nil and its dynamic type is `T` (for `T = any`:
+    is not nil); it then returns the value itself, and the zero value of `T` otherwise.
+    `MustAs[T]` panics iff `As[T]` fails and otherwise returns the same value. -/
+theorem asT_spec (t : GoType) (v : GoVal) :
+    ((asT t v).2 = true ↔ v ≠ .nil ∧ (t = .any ∨ v.typeOf? = some t))
+    ∧ ((asT t v).2 = true → (asT t v).1 = v) ∧ ((asT t v).2 = false → (asT t v).1 = zeroOf t)
+    ∧ mustT t v = (if (asT t v).2 then .ok (asT t v).1 else .panic)
+    ∧ (mustT t v = .panic ↔ (asT t v).2 = false) := by
+  obtain ⟨h1, h2⟩ := asT_exp t v
+  refine ⟨?_, ?_, ?_, mustT_eq t v, ?_⟩
+  · rw [h1]; simp [expAs]
+  · intro h; rw [h2, ← h1, h]; rfl
+  · intro h; rw [h2, ← h1, h]; rfl
+  · rw [mustT_eq]; cases (asT t v).2 <;> simp
+
+/-- `As[int]` on an `int` and on a `MyInt`; `As[any]` on nil; `As[Result]` on a Result used as a value
+    (`flyt.As[flyt.Result](flyt.R(flyt.R(42)))`); the zero `Result` otherwise -/
+example : asT (.basic .int) (.int (.basic .int) 42) = (.int (.basic .int) 42, true)
+    ∧ asT (.basic .int) (.int (.named "MyInt" (.basic .int)) 42) = (.int (.basic .int) 0, false)
+    ∧ asT .any .nil = (.nil, false) ∧ asT .any (.bool tBool true) = (.bool tBool true, true)
+    ∧ asT tResult (.newResult (.int (.basic .int) 42)) = (.newResult (.int (.basic .int) 42), true)
+    ∧ asT tResult (.int (.basic .int) 42) = (.newResult .nil, false)
+    ∧ mustT tAnys (.slice tInts true .nil) = .panic
+    ∧ zeroOf (.array 2 (.basic .int)) = .array (.array 2 (.basic .int)) (.cons (.int (.basic .int) 0) (.cons (.int (.basic .int) 0) .nil)) := by
+  decide
+
 /-- `AsSlice` succeeds iff the value's kind is slice, and then returns exactly `ToSlice v`. -/
 theorem asSlice_spec (v : GoVal) :
     asSlice v = .ok (if v.kind = .slice then (toSlice v, true) else (none, false)) :=
@@ -414,8 +446,10 @@ theorem holds (sc : Scenario) (h : sc.v.wf = true) : c15 sc (observe sc) = true 
         simp [observe, observeWith, h1, h2, h2', h3, h4, h5, h6, getSliceWith, hkind, expSlice]
   have hts : (parts sc (observe sc)).toSlice = true := by
     simp [parts, observe, observeWith, toSliceOK, elemsOf_toSlice]
-  simp only [parts] at hstr hint hflt hbool hmap hslice hts
-  simp only [c15, Parts.all, parts, hstr, hint, hflt, hbool, hmap, hslice, hts, Bool.and_self]
+  have hgen : (parts sc (observe sc)).gen = true := by
+    simp only [parts, observe, observeWith]; exact genOK_model sc.v
+  simp only [parts] at hstr hint hflt hbool hmap hslice hts hgen
+  simp only [c15, Parts.all, parts, hstr, hint, hflt, hbool, hmap, hslice, hts, hgen, Bool.and_self]
 
 /-- non-vacuity: a struct holding a slice and a NaN — well-formed, non-nil, not a slice — on which
     the model answers `(nil, false)` without panicking -/
@@ -428,7 +462,110 @@ example : witnessNC.wf = true ∧ asSlice witnessNC = .ok (none, false)
         (observe ⟨witnessNC, ⟨"d", 7, 0, true, none, none⟩, ⟨fun _ _ => none, id, fun _ => 0⟩⟩) = true := by
   decide
 
-/-! ## 5. Interface equality, and the unrepaired slice test (finding F4) -/
+/-! ## 5. A `flyt.Result` used as an ordinary value
+
+`flyt.R(flyt.R(42))`, a Result stored in the SharedStore, a Result inside a slice: the value whose
+dynamic type is `flyt.Result` itself (`GoVal.result v e` = `Result{value: v, err: e}`; `newResult v`
+and `newErrorResult e` are what the two public constructors build). -/
+
+/-- A Result is a struct-kind value of the comparable struct type `flyt.Result`: never nil, not a
+    slice, not a map — and well-formed exactly when what it holds is, so every theorem above that
+    quantifies over well-formed values speaks about Results holding any value of the universe,
+    nil, another Result and error Results included. -/
+theorem result_value (v e : GoVal) :
+    GoVal.result v e ≠ .nil ∧ (GoVal.result v e).typeOf? = some tResult
+    ∧ (GoVal.result v e).kind = .struct ∧ tResult.kind = .struct ∧ tResult.comparable = true
+    ∧ ((GoVal.result v e).wf = true ↔ v.wf = true ∧ e.wf = true) := by
+  refine ⟨by simp [GoVal.result], rfl, rfl, by decide, by decide, ?_⟩
+  rw [result_wf]; simp
+
+/-- `R(R(42))`, `R(R(nil))`, `R(NewErrorResult(errors.New(…)))`, `R([]Result{R(1)})` are well-formed -/
+example : (GoVal.newResult (.newResult (.int (.basic .int) 42))).wf = true
+    ∧ (GoVal.newResult (.newResult .nil)).wf = true
+    ∧ (GoVal.newResult (.newErrorResult (.ptr (.ptr (.named "ErrStr" (.structField tString .structEnd))) (some 1)))).wf = true
+    ∧ (GoVal.newResult (.slice (.slice tResult) false (.cons (.newResult (.int (.basic .int) 1)) .nil))).wf = true := by
+  decide
+
+/-- A Result is not a documented source type of any accessor: every `AsX` fails on it with the zero
+    value, whatever it holds — `R(R(42)).AsInt()` is `(0, false)`, not `(42, true)` —, `ToSlice`
+    wraps it into a one-element slice, and the store getters on a key holding it yield the default. -/
+theorem result_opaque (c : Conv) (v e : GoVal) (s : Store) (k : String)
+    (hs : s.get k = some (GoVal.result v e))
+    (ds : String) (di : Option Int) (df : Nat) (db : Bool) (dsl : SliceV) (dm : MapV) :
+    asString (GoVal.result v e) = ("", false) ∧ asInt c (GoVal.result v e) = (some 0, false)
+    ∧ asFloat64 c (GoVal.result v e) = (0, false) ∧ asBool (GoVal.result v e) = (false, false)
+    ∧ asMap (GoVal.result v e) = (none, false) ∧ asSlice (GoVal.result v e) = .ok (none, false)
+    ∧ toSlice (GoVal.result v e) = some [GoVal.result v e]
+    ∧ getStringOr s k ds = ds ∧ getIntOr c s k di = di ∧ getFloat64Or c s k df = df
+    ∧ getBoolOr s k db = db ∧ getMapOr s k dm = dm ∧ getSliceOr s k dsl = .ok dsl := by
+  obtain ⟨h1, h2, h3, h4, h5, h6, h7⟩ := result_accessors c v e
+  have h := store_agrees_with_result c s k _ hs ds di df db dsl dm
+  refine ⟨h1, h2, h3, h4, h5, h6, h7, ?_, ?_, ?_, ?_, ?_, ?_⟩
+  · rw [h.1, asStringOr_eq, h1]; rfl
+  · rw [h.2.2.1, asIntOr_eq, h2]; rfl
+  · rw [h.2.2.2.2.1, asFloat64Or_eq, h3]; rfl
+  · rw [h.2.2.2.2.2.2.1, asBoolOr_eq, h4]; rfl
+  · rw [h.2.2.2.2.2.2.2.2.1, asMapOr_eq, h5]; rfl
+  · rw [h.2.2.2.2.2.2.2.2.2.2.1, asSliceOr_closed]; rfl
+
+/-- `R(R(42))`: the outer Result's accessors and the store see a Result, not the 42 inside it;
+    the Result holding 42 itself converts -/
+example : asInt ⟨fun _ _ => none, id, fun _ => 0⟩ (.newResult (.int (.basic .int) 42)) = (some 0, false)
+    ∧ asInt ⟨fun _ _ => none, id, fun _ => 0⟩ (.int (.basic .int) 42) = (some 42, true)
+    ∧ getIntOr ⟨fun _ _ => none, id, fun _ => 0⟩ (Store.set [] "k" (.newResult (.int (.basic .int) 42))) "k" (some (-7)) = some (-7)
+    ∧ asSlice (.newResult (.slice tInts false (.cons (.int (.basic .int) 1) .nil))) = .ok (none, false)
+    ∧ toSlice (.newResult (.int (.basic .int) 42)) = some [.newResult (.int (.basic .int) 42)]
+    ∧ asSlice (.slice (.slice tResult) false (.cons (.newResult (.int (.basic .int) 1)) .nil))
+        = .ok (some [.newResult (.int (.basic .int) 1)], true) := by decide
+
+/-- A Result compares like what it holds: the value first, then the error (`flyt.Result` is a
+    comparable struct type, so the only panic is the one of a non-comparable content). -/
+theorem result_comparison (v e : GoVal) :
+    ifaceEq (GoVal.result v e) (GoVal.result v e) = (match ifaceEq v v with | .eq => ifaceEq e e | x => x)
+    ∧ ifaceEq (GoVal.newResult v) (GoVal.newResult v) = ifaceEq v v
+    ∧ ifaceEq (GoVal.newErrorResult e) (GoVal.newErrorResult e) = ifaceEq e e := by
+  refine ⟨result_ifaceEq v e, ?_, ?_⟩
+  · rw [GoVal.newResult, result_ifaceEq]; cases ifaceEq v v <;> rfl
+  · rw [GoVal.newErrorResult, result_ifaceEq]; rfl
+
+/-- `R(42) == R(42)`, `R(NaN) ≠ R(NaN)`, `R([]int(nil)) == R([]int(nil))` panics, so does an error
+    Result whose error has a non-comparable type; a Result never equals what it holds -/
+example : ifaceEq (.newResult (.int (.basic .int) 42)) (.newResult (.int (.basic .int) 42)) = .eq
+    ∧ ifaceEq (.newResult (.float (.basic .float64) 9221120237041090561)) (.newResult (.float (.basic .float64) 9221120237041090561)) = .ne
+    ∧ ifaceEq (.newResult (.slice tInts true .nil)) (.newResult (.slice tInts true .nil)) = .panic
+    ∧ ifaceEq (.newErrorResult (.struct (.named "MyNCErr" (.structField tStrings .structEnd)) (.cons (.slice tStrings true .nil) .nil)))
+        (.newErrorResult (.struct (.named "MyNCErr" (.structField tStrings .structEnd)) (.cons (.slice tStrings true .nil) .nil))) = .panic
+    ∧ ifaceEq (.newResult (.int (.basic .int) 42)) (.int (.basic .int) 42) = .ne
+    ∧ ifaceEq (.newResult .nil) (.newErrorResult .nil) = .eq := by decide
+
+/-- The whole property on a Result value: `Spec.c15` is true of the model's observation, and that
+    observation says "not convertible" in all six families. -/
+theorem holds_on_results (sc : Scenario) (v e : GoVal) (hv : sc.v = GoVal.result v e)
+    (h1 : v.wf = true) (h2 : e.wf = true) :
+    c15 sc (observe sc) = true
+    ∧ (observe sc).str.as_ = .ok ("", false) ∧ (observe sc).int.as_ = .ok (some 0, false)
+    ∧ (observe sc).flt.as_ = .ok (0, false) ∧ (observe sc).bool.as_ = .ok (false, false)
+    ∧ (observe sc).slice.as_ = .ok (none, false) ∧ (observe sc).map.as_ = .ok (none, false)
+    ∧ (observe sc).toSlice = .ok (some [sc.v]) := by
+  obtain ⟨a1, a2, a3, a4, a5, a6, a7⟩ := result_accessors sc.conv v e
+  unfold asSlice at a6
+  refine ⟨holds sc (by rw [hv, result_wf, h1, h2]; rfl), ?_⟩
+  simp [observe, observeWith, hv, a1, a2, a3, a4, a5, a6, a7]
+
+example : c15 ⟨.newResult (.newResult (.int (.basic .int) 42)), ⟨"d", 7, 0, true, none, none⟩, ⟨fun _ _ => none, id, fun _ => 0⟩⟩
+      (observe ⟨.newResult (.newResult (.int (.basic .int) 42)), ⟨"d", 7, 0, true, none, none⟩, ⟨fun _ _ => none, id, fun _ => 0⟩⟩) = true := by
+  decide
+
+/-- What a `NewResult` that hands an incoming Result through unchanged would do — the outer accessors
+    answer for the *inner* value (`R(R(42)).AsInt() = (42, true)`) while the store still holds the
+    Result — is not the property: the predicate is false of that observation. -/
+example :
+    c15 ⟨.newResult (.int (.basic .int) 42), ⟨"d", 7, 0, true, none, none⟩, ⟨fun _ _ => none, id, fun _ => 0⟩⟩
+      { observe ⟨.newResult (.int (.basic .int) 42), ⟨"d", 7, 0, true, none, none⟩, ⟨fun _ _ => none, id, fun _ => 0⟩⟩ with
+        int.as_ := .ok (some 42, true), int.or_ := .ok (some 42), int.must := .ok (some 42) } = false := by
+  decide
+
+/-! ## 6. Interface equality, and the unrepaired slice test (finding F4) -/
 
 /-- Comparing a value with one of the same non-comparable dynamic type panics (Go's run-time
     panic "comparing uncomparable type"). -/
